@@ -381,6 +381,27 @@ example : ∃ f, fileFromBytes [91, 97, 93, 32, 107, 32, 61, 32, 118, 10, 91, 98
       (.refl _) (Or.inl rfl) (by decide +kernel))
     (Or.inl rfl) (by decide +kernel)
 
+/-- The same with the shape of the writer's output as a DECIDABLE predicate (`insCheck`, a linear
+walk over the two event lists): no relation has to be exhibited by hand. -/
+theorem file_reparse_keys_on_header_lines_checked (bs : Bytes) (f : File) (h : fileFromBytes bs = some f)
+    (hb : bomLen bs = 0) (hc : ∀ revs, parseRaw bs = some revs → ∀ e ∈ revs, e.canon = true)
+    (hins : insCheck f.events f.aug = true ∨
+      ∃ t2, (t2 = [10] ∨ t2 = [13, 10]) ∧ insCheck (f.events ++ [.newline t2]) f.aug = true ∧
+        (∃ e ∈ f.events, isHeaderEv e = true) ∧
+        ∃ e, f.events.getLast? = some e ∧ (isValueEnd e = true ∨ evIsWs e = true ∨ isHeaderEv e = true ∨
+          (isComment e = true ∧ t2 = [10]))) :
+    ∃ g, fileFromBytes f.write = some g ∧ g.entries = f.entries ∧ g.headers = f.headers := by
+  refine file_reparse_keys_on_header_lines bs f h hb hc ?_
+  rcases hins with h1 | ⟨t2, ht2, h1, h2, h3⟩
+  · exact Or.inl (insCheck_sound _ _ h1)
+  · exact Or.inr ⟨t2, ht2, insCheck_sound _ _ h1, h2, h3⟩
+
+-- non-vacuity: the same file as above, checked by evaluation
+example : ∃ f, fileFromBytes [91, 97, 93, 32, 107, 32, 61, 32, 118, 10, 91, 98, 93, 32, 106, 10, 91, 99, 93] = some f
+    ∧ insCheck (f.events ++ [.newline [10]]) f.aug = true
+    ∧ (∃ e, f.events.getLast? = some e ∧ isHeaderEv e = true) := by
+  refine ⟨_, rfl, by decide +kernel, ⟨_, rfl, rfl⟩⟩
+
 /-- The appended-newline theorem on its own: for EVERY text the parser accepts (no BOM head, not
 ending in CR, events ending in a value) the text with `\n` or `\r\n` appended is accepted too, and
 reads as the same headers and entries. -/
